@@ -236,6 +236,9 @@ def judge(sess, res, check_frame=True):
                     and a['vid'] not in varm_taint
                 if rc == -60 and not allknown:
                     rc = 0      # never-written elements hold anything: a range error is legitimate
+                unfit = [i for i in idxs if (a['vid'], tuple(i)) in exp.val and not O.fits(a['memk'], exp.val[(a['vid'], tuple(i))])]
+                if rc == -60 and unfit:
+                    rc = 0      # a stored value does not fit the memory type asked for: NC_ERANGE is the documented answer
                 if rc != 0:
                     fails.append(dict(kind='valid-get-rejected', line=ln, rank=r, detail='rc %d: %s' % (rc, text))); continue
                 if a.get('op') != 'get' or a['form'] == 'varm' or a['vid'] in varm_taint:
@@ -257,6 +260,8 @@ def judge(sess, res, check_frame=True):
                     k += 1
                     if key in exp.dirty and exp.dirty[key] != r:
                         continue
+                    if key in exp.val and not O.fits(a['memk'], exp.val[key]):
+                        continue        # (what is delivered for an out-of-range element is the subject of C09)
                     if key in exp.val:
                         want = O.mem_bytes(a['memk'], exp.val[key])
                         if got != want:
